@@ -7,6 +7,13 @@ func FindPropAlongProtos(o PanObject, propHash SymHash) (PanObject, bool) {
 		prop, ok := findProp(obj, propHash)
 
 		if ok {
+			// NOTE: an error stored as a prop is handed out as a copy, otherwise raising it
+			// appends the stacktrace to the stored one
+			// (for example, abstract props of Either share a NotImplementedErr)
+			if err, isErr := prop.(*PanErr); isErr {
+				copied := *err
+				return &copied, true
+			}
 			return prop, true
 		}
 	}
